@@ -60,7 +60,7 @@ def unit_variants(rkeys, thorough, per_mass):
     out = list(molar) + list(perm) if thorough else ['J/mol/K', 'kcal/mol/K', 'eV/K', 'L atm/mol/K']
     out = [u for u in out if u in rkeys]
     if per_mass:
-        out += ['J/g/K', 'kJ/kg/K'] if thorough else ['J/g/K']
+        out += ['J/g/K', 'kJ/kg/K']      # gram is the table's base mass unit (factor 1): kilogram shows a wrong direction
     return out
 
 
